@@ -410,33 +410,56 @@ func replayHistory(imp *fixture.Importer, h []op) (w *world, okAll bool) {
 
 func run(c *vf.Ctx) {
 	imp := fixture.New(fixtures, false)
-	full := c.Thorough()
-	alpha := alphabet(full)
-	L := 4
-	if full {
-		L = 4
-	}
 	states := map[string]struct{}{}
-	var hist []op
 	var counter int64
+	// quick: every history of length <= 5 over the reduced alphabet (19 operations);
+	// thorough: additionally every history of length <= 4 over the full alphabet (34 operations) that uses at
+	// least one operation outside the reduced set (the others are already covered).
+	explore(c, imp, alphabet(false), 5, nil, states, &counter)
+	if c.Thorough() {
+		reduced := map[string]bool{}
+		for _, o := range alphabet(false) {
+			reduced[o.String()] = true
+		}
+		explore(c, imp, alphabet(true), 4, reduced, states, &counter)
+	}
+}
+
+// explore runs every history over alpha of length 2..L (each from a fresh package); histories made only of
+// operations in skipIfOnly are descended into but not evaluated again.
+func explore(c *vf.Ctx, imp *fixture.Importer, alpha []op, L int, skipIfOnly map[string]bool, states map[string]struct{}, counter *int64) {
+	var hist []op
 	var dfs func(depth int)
 	dfs = func(depth int) {
 		for _, o := range alpha {
 			hist = append(hist, o)
 			mine := true
 			if depth == 1 {
-				mine = c.MineIdx(counter)
-				counter++
+				mine = c.MineIdx(*counter)
+				*counter++
 			}
 			if mine && depth >= 1 {
 				if c.Expired() {
-					c.Cap("wall budget")
 					hist = hist[:len(hist)-1]
 					return
 				}
 				w, ok := replayHistory(imp, hist)
+				covered := skipIfOnly != nil
+				for _, x := range hist {
+					if !skipIfOnly[x.String()] {
+						covered = false
+					}
+				}
+				if covered {
+					if ok && depth+1 < L {
+						dfs(depth + 1)
+					}
+					hist = hist[:len(hist)-1]
+					continue
+				}
 				c.Eval(1)
 				c.Transition(len(hist))
+				c.Tally(fmt.Sprintf("histories_of_length_%d", len(hist)), 1)
 				if !ok {
 					c.Tally("pruned_builder_rejected", 1)
 					c.Outcome("pruned")
